@@ -260,6 +260,7 @@ class SpawnProcess(multiprocessing.context.SpawnProcess):
         # in this order; both may be `None`.
 
         if not self._target:
+            self._mpservice_exitcode_ = 0
             result_and_error.send(None)
             result_and_error.send(None)
             result_and_error.close()
